@@ -622,3 +622,29 @@ where
         self.find_compact_A_b_and_cones(A, b)
     }
 }
+
+// verification hooks (add-only): the private helpers of the compact transformation
+#[cfg(feature = "verif-hooks")]
+impl<T> ChordalInfo<T>
+where
+    T: FloatT,
+{
+    pub(crate) fn vh_find_A_dimension(&self, A: &CscMatrix<T>) -> (usize, usize, usize) {
+        self.find_A_dimension(A)
+    }
+    pub(crate) fn vh_alternating_sequence(total_length: usize, n_start: usize) -> Vec<T> {
+        alternating_sequence::<T>(total_length, n_start)
+    }
+    pub(crate) fn vh_extra_columns(total_length: usize, n_start: usize, start_val: usize) -> Vec<usize> {
+        extra_columns(total_length, n_start, start_val)
+    }
+    pub(crate) fn vh_get_rows_mat(A: &CscMatrix<T>, col: usize, row_range: Range<usize>) -> Option<Range<usize>> {
+        get_rows_mat(A, col, row_range)
+    }
+    pub(crate) fn vh_get_rows_vec(b: &[T], row_range: Range<usize>) -> Option<Range<usize>> {
+        get_rows_vec(&SparseVector::new(b), row_range)
+    }
+    pub(crate) fn vh_get_clique_by_index(sntree: &SuperNodeTree, i: usize) -> Vec<usize> {
+        get_clique_by_index(sntree, i).iter().copied().collect()
+    }
+}
